@@ -96,6 +96,12 @@ def getOp (s : C3D) (t : List String) : String :=
   | ["chan", f, k, i] => resStr chanS ((atIdx s.frames (N f)).bind fun fr => (atIdx fr.subs (N k)).bind fun sf => atIdx sf (N i))
   | ["chann", f, k, n] => resStr chanS ((atIdx s.frames (N f)).bind fun fr => (atIdx fr.subs (N k)).bind fun sf => byName Channel.name sf (X n))
   | ["chanidx", f, k, n] => resStr toString ((atIdx s.frames (N f)).bind fun fr => (atIdx fr.subs (N k)).bind fun sf => nameIdx Channel.name sf (X n))
+  -- the non-const accessors have the contract of the const ones
+  | ["ncpoint", f, i] => resStr pointStr ((atIdx s.frames (N f)).bind fun fr => atIdx fr.pts (N i))
+  | ["ncpointn", f, n] => resStr pointStr ((atIdx s.frames (N f)).bind fun fr => byName Point.name fr.pts (X n))
+  | ["ncsub", f, k] => resStr (fun (sf : SubFrame) => toString sf.length) ((atIdx s.frames (N f)).bind fun fr => atIdx fr.subs (N k))
+  | ["ncchan", f, k, i] => resStr chanS ((atIdx s.frames (N f)).bind fun fr => (atIdx fr.subs (N k)).bind fun sf => atIdx sf (N i))
+  | ["ncchann", f, k, n] => resStr chanS ((atIdx s.frames (N f)).bind fun fr => (atIdx fr.subs (N k)).bind fun sf => byName Channel.name sf (X n))
   | ["group", i] => resStr (fun (g : Group) => s!"{xhex g.name} {g.params.length}") (atIdx s.groups (N i))
   | ["groupn", n] => resStr (fun (g : Group) => s!"{xhex g.name} {g.params.length}") (byName Group.name s.groups (X n))
   | ["groupidx", n] => resStr toString (groupIdx s.groups (X n))
